@@ -1,3 +1,5 @@
 import Usual.Common
-/-! Model driver for C08 (stub: not built yet). -/
-def main : IO Unit := IO.println "stub"
+import Usual.C08.TlsName
+/-! Model driver for C08: same op lines as harness/C08/h.c, one output line per input line. -/
+def main : IO Unit :=
+  Usual.runDriver () (fun _ line => ((), Usual.C08.runLine line))
